@@ -50,7 +50,7 @@ class ExprMixin:
         lab = self.label(node, tag)
         if st is not None and self.loop_depth:
             self.recency(st, lab)
-        return AV(kinds, (lab,), elem, items, (), cls)
+        return AV(kinds, (lab,), elem, items, (), cls, ident=False)
 
     def recency(self, st, lab):
         old = lab + "~"
@@ -373,8 +373,11 @@ class ExprMixin:
                 parts.append(self.raw_attr(base, attr))
             return join_all(parts)
         if base.kinds & ARRAYISH:
-            if attr in T.ARR_VIEW_ATTRS:
-                parts.append(AV(base.kinds & ARRAYISH, base.orig))
+            if attr in ("mask", "_mask", "recordmask"):
+                parts.append(AV(base.kinds & ARRAYISH, base.mask_orig))
+            elif attr in T.ARR_VIEW_ATTRS:
+                parts.append(AV(base.kinds & ARRAYISH, base.orig, msh=base.msh,
+                                ident=False if attr in ("T", "mT") else None))
             elif attr in T.ARR_SCALAR_ATTRS:
                 parts.append(AV(("tuple",), items=None, elem=SCALAR) if attr in ("shape", "strides")
                              else SCALAR)
@@ -460,11 +463,11 @@ class ExprMixin:
         if base.kinds & ARRAYISH:
             k = base.kinds & ARRAYISH
             if ik == "basic":
-                parts.append(AV(set(k) | {"scalar"}, base.orig))
+                parts.append(AV(set(k) | {"scalar"}, base.orig, msh=base.msh, ident=False))
             elif ik == "fancy":
                 parts.append(self.fresh(node, set(k - {"any"}) or {"nd"}, st=st, tag="i"))
             else:
-                parts.append(join(AV(set(k) | {"scalar"}, base.orig),
+                parts.append(join(AV(set(k) | {"scalar"}, base.orig, msh=base.msh, ident=False),
                                   self.fresh(node, ("nd",), st=st, tag="i")))
         if "any" in base.kinds and base.elem is not None and base.elem is not base:
             parts.append(base.elem)
